@@ -379,7 +379,8 @@ CDECORATORS = {
 # no single-flight wrapper (thunder_protection) and no lock around a cache read
 # single-flight by design while the cache is not FULLY disabled: `protected=True` (thunder_protection) joins an
 # overlapping call with the same key to the one in flight, whatever commands are disabled (mirrored, not judged)
-COALESCING = ["cache", "cache_lock", "early", "soft"]
+# (since D49, /repo 056aa9a, also the `upper=True` path)
+COALESCING = ["cache", "cache_lock", "cache_upper", "cache_upper_lock", "early", "soft"]
 ALWAYS_OWN = ["locked", "invalidate", "rate_limit", "slice_rate_limit", "circuit_breaker"]
 
 
